@@ -22,7 +22,8 @@ PROPS = {
         "level": "proof",
         "technique": "Verus: contracts on src/value.rs verbatim (ghost view path(): Seq<Step>; loop invariant on to_owned); unbounded",
         "design_ref": "DESIGN.md §4 C19",
-        "units": [{"kind": "verus", "unit": "value"}],
+        "units": [{"kind": "verus", "unit": "value", "ce_harnesses": {"ValuePointerRef": ["value_paths"]}},
+                  {"kind": "enum", "group": "value-paths", "harnesses": ["value_paths"], "bounds": "BOUNDED cross-check: every path of <= 6 steps over 2 keys and 2 indices (exhaustive native execution)"}],
         "text": "Every function of ValuePointerRef (push_key, push_index, is_origin, last_field, first_field, to_owned) is extracted from src/value.rs on each run and verified by Verus against a ghost view path(): Seq<Step>: push_* append exactly one step, is_origin <=> empty path, first/last_field equal recursive spec functions over the step sequence, to_owned lists exactly path() in order (loop invariant + termination). All paths, all lengths, unbounded.",
         "level_note": "Trusted: Verus/Z3; vstd specs for Vec::push, into_iter().rev().collect(), str::to_string; two stated std axioms (Option::or, Display for &str). Locations are only ever built by push_* from Origin, so 'any sequence of pushes' is induction over the two push contracts.",
         "assumptions": [],
